@@ -20,6 +20,19 @@ Definition cb (bs : N) (scr : list (N * N)) (str : string)
 Definition cbN (bs : N) (scr : list (N * N)) (str : string) : inp * option obs :=
   ((true, N.to_nat bs, map (fun p => (N.to_nat (fst p), sk (snd p))) scr, unhex str), None).
 
+(* the same runs with NO OnError callback registered: the number of callbacks is not observable (the model's
+   value is filled in); tokens, held contents, reads after the error and the delivered bytes are compared *)
+Definition cq (bs : N) (scr : list (N * N)) (str : string)
+              (ret end_ : list string) (rae : N) (del : string) : inp * option obs :=
+  let scr' := map (fun p => (N.to_nat (fst p), sk (snd p))) scr in
+  ((false, N.to_nat bs, scr', unhex str),
+   Some (mkobs (map unhex ret) (map unhex end_) (expected_nerr scr') (N.to_nat rae) (unhex del))).
+Definition cbq (bs : N) (scr : list (N * N)) (str : string)
+               (ret end_ : list string) (rae : N) (del : string) : inp * option obs :=
+  let scr' := map (fun p => (N.to_nat (fst p), sk (snd p))) scr in
+  ((true, N.to_nat bs, scr', unhex str),
+   Some (mkobs (map unhex ret) (map unhex end_) (expected_nerr scr') (N.to_nat rae) (unhex del))).
+
 (* the implementation did not complete (panic or runaway loop) *)
 Definition cN (bs : N) (scr : list (N * N)) (str : string) : inp * option obs :=
   ((false, N.to_nat bs, map (fun p => (N.to_nat (fst p), sk (snd p))) scr, unhex str), None).
